@@ -52,8 +52,8 @@ def build_model(name, dt):
 
 
 KINDS = {
-    "combined": ["prog_start", "budget", "capacity", "coverage", "stop"] + [f"scen:{t}:{i}" for t in ("vr", "pb", "pa", "br", "age") for i in ("linear", "previous")] + ["extend"],
-    "agg": [f"scen:{t}:{i}" for t in ("mix", "rec") for i in ("linear", "previous")] + ["extend"],
+    "combined": ["prog_start", "budget", "capacity", "coverage", "stop"] + [f"scen:{t}:{i}" for t in ("vr", "pb", "pa", "br", "age") for i in ("linear", "previous")] + [f"scen2:{t}:{i}" for t in ("pb", "vr") for i in ("linear", "previous")] + ["extend"],
+    "agg": [f"scen:{t}:{i}" for t in ("mix", "rec") for i in ("linear", "previous")] + [f"scen2:{t}:{i}" for t in ("inf", "foi") for i in ("linear", "previous")] + ["extend"],
     "state": ["prog_start", "budget", "stop"] + [f"scen:{t}:{i}" for t in ("p1", "drv", "p2") for i in ("linear", "previous")] + ["extend"],
 }
 
@@ -145,6 +145,32 @@ def run_case(case):
                 vs.append(V("extension-changes-earlier-output", f"{lab0}: {k} differs before the original end year", None))
                 break
         return dict(states=nT, transitions=nT - 1, nontrivial=True, violations=vs, counters=dict(pairs=1))
+
+    if kind.startswith("scen2:"):
+        # the same parameter is overwritten in two populations with different first years: the intervention is the SECOND population's overwrite,
+        # the paired baseline already contains the first population's (earlier) overwrite
+        _, target, interp = kind.split(":")
+        popA, popB = w.parset.pop_names[:2]
+        v1, v2 = dict(pb=(0.9, 0.2), vr=(0.8, 0.1), inf=(0.7, 0.05), foi=(0.6, 0.1))[target]
+        YA = float(t[1])
+        sa = at.ParameterScenario(name="sa", interpolation=interp)
+        sa.add(target, popA, [YA, YA + 1.0], [v1, v2])
+        base = w.P.run_sim(sa.get_parset(w.parset, w.P), store_results=False)
+        a = arrays(base)
+        for Y in ys(t, dt):
+            sb = at.ParameterScenario(name="sb", interpolation=interp)
+            sb.add(target, popA, [YA, YA + 1.0], [v1, v2])
+            sb.add(target, popB, [Y, Y + 1.0], [v2, v1])
+            r2 = w.P.run_sim(sb.get_parset(w.parset, w.P), store_results=False)
+            b2 = arrays(r2)
+            v, n = compare_before(a, b2, t, Y, f"{lab0} (population {popA} overwritten from {YA!r}) Y={Y!r}")
+            eff += differs(a, b2)
+            vs += v
+            states += n
+            trans += 1
+            if len(vs) >= 3:
+                break
+        return dict(states=states, transitions=trans, nontrivial=eff > 0, violations=vs[:3], counters=dict(pairs=trans, pairs_with_effect=eff))
 
     if kind.startswith("scen:"):
         _, target, interp = kind.split(":")
